@@ -148,6 +148,17 @@ class Oracle:
         sp = urllib.parse.urlsplit(doc.url)
         q = dict(urllib.parse.parse_qsl(sp.query))
         subj = sp.path.split("/")[-1]
+        start = q.get("start", "year")
+        if start not in SYMBOLIC:
+            # the statement quantifies over explicit instants <= now, and the server's now is the clock minus
+            # `drift`: a start inside the last `drift` seconds is a start in the server's future - out of scope
+            try:
+                drift_us = int(q.get("drift", "0") or 0) * 1_000_000
+                if simclock.SimClock.parse(start) > doc.fetched_us - drift_us:
+                    sim.world.probe("c08.skip-start-after-drifted-now")
+                    return
+            except ValueError:
+                pass
         if doc.resp.status != 200:
             if doc.resp.status >= 500:
                 sim.violate("manifest-5xx", subj, f"{doc.resp.status} {doc.url} at {doc.fetched_us}")
